@@ -18,9 +18,10 @@ STREAMS = {
     "needle-b": {"relevant": True, "desc": "list(iter_find_needle(BytesIO, needle, start, 0)) + tell(), io.DEFAULT_BUFFER_SIZE patched to B; "
                  "no limit: the property fixes the answer completely, any difference from the model contradicts it"},
     "needle-f": {"relevant": True, "desc": "same on a real file opened 'rb'"},
-    "needlelim-b": {"relevant": False, "desc": "with max_offset != 0 on BytesIO: the property only demands soundness + completeness before the limit "
-                    "(checked by the oracle); the exact cut is correspondence-only"},
-    "needlelim-f": {"relevant": False, "desc": "same on a real file"},
+    "needlelim-b": {"relevant": True, "desc": "with max_offset != 0 on BytesIO: the exact list and final position are fixed by the closed form of "
+                    "`needle_limit_exact` (block start <= max_offset and buffer index <= max_offset, as a function of B and the start); the oracle "
+                    "implements that closed form independently and also checks soundness + completeness before the limit"},
+    "needlelim-f": {"relevant": True, "desc": "same on a real file"},
     "needle-edge": {"relevant": False, "desc": "outside the property's domain (empty needle, B = 0): model/code agreement only"},
     "art-b": {"relevant": True, "desc": "list(iter_artifactkit_payloads(BytesIO, start, maxrange)) + tell()"},
     "art-f": {"relevant": True, "desc": "same on a real file opened 'rb'"},
@@ -39,6 +40,7 @@ ASSUMPTIONS = [
     "the iterator is consumed completely (list(...)); the file is not modified concurrently",
 ]
 RULE = ("exhaustive haystacks/needles over {00,01,ff} x B in 1..5 x start x limit, planted boundary-straddling occurrences for B in {7,64,8192}, "
+        "limits on every block start s0+j*B (+-1) and on the buffer index of planted occurrences (+-1) for B in {1,2,3,5,7,64,8192}, "
         "ArtifactKit files with planted headers; distinct = hash of (stream, line); non-trivial = at least one offset / payload was reported "
         "by the real code, or a limit / start offset cut the result")
 
@@ -52,6 +54,31 @@ ALPHA = [0x00, 0x01, 0xFF]
 def naive_occ(hay: bytes, needle: bytes):
     n = len(needle)
     return [i for i in range(0, len(hay) - n + 1) if all(hay[i + k] == needle[k] for k in range(n))]
+
+
+def limit_closed_form(hay: bytes, needle: bytes, s0: int, m: int, B: int):
+    """`needle_limit_exact`, written from the theorem statement (no block loop, no bytes.find):
+    an occurrence at file offset o >= s0 belongs to block j = (o + n - 1 - s0) // B (the block holding its last byte), whose search
+    buffer starts at file offset s0 + max(j*B - (n-1), 0); it is reported iff the block START is <= m and the buffer INDEX is <= m."""
+    n = len(needle)
+    out = []
+    for o in naive_occ(hay, needle):
+        if o < s0:
+            continue
+        j = (o + n - 1 - s0) // B
+        if s0 + j * B > m:
+            continue
+        if o - (s0 + max(j * B - (n - 1), 0)) > m:
+            continue
+        out.append(o)
+    return out
+
+
+def limit_end(B: int, m: int, L: int, pos: int) -> int:
+    """`limitEnd`: the position after the last block that was read (its start is <= m and < L)"""
+    if pos > m or pos >= L:
+        return pos
+    return min(L, pos + ((m - pos) // B + 1) * B)
 
 
 def naive_art(hay: bytes, s0: int, maxrange):
@@ -158,7 +185,10 @@ def oracle(stream, line, out):
         if any(a >= b for a, b in zip(got, got[1:])):
             return False  # ascending, no duplicates
         gset = set(got)
-        return all(i in gset for i in truth if i + len(needle) <= maxoff)  # limit completeness
+        if not all(i in gset for i in truth if i + len(needle) <= maxoff):
+            return False  # limit completeness
+        # the exact cut and the final position (closed form of `needle_limit_exact`)
+        return got == limit_closed_form(hay, needle, s0, maxoff, B) and int(toks[2]) == limit_end(B, maxoff, len(hay), s0)
     if stream.startswith("art"):
         hay, start, maxrange, initpos = C.unhx(w[2]), opt(w[3]), opt(w[4]), int(w[5])
         if start is not None and start < 0:
@@ -371,6 +401,45 @@ def gen(tier, rng, shard, nshards):
                 p = rng.choice(planted)
                 maxoff = max(0, p + rng.choice([-1, 0, 1, nl - 1, nl, nl + 1, B, -B]))
             yield needle_line("f" if rng.random() < 0.3 else "b", B, hay, needle, start, maxoff, initpos)
+
+    # ---- (5b) limits ON the two boundaries of the closed form: block starts s0 + j*B and buffer indices o - bufStart(j(o))
+    # (a wrong comparison operator in either test, or a test against the file offset instead of the buffer index, changes one of these)
+    plan_b = [(1, 260, 9), (2, 300, 8), (3, 300, 6), (5, 300, 5), (7, 300, 5), (64, 220, 4), (8192, 50, 2)]
+    for B, count, maxblocks in plan_b:
+        for _ in range(max(1, (count * (6 if thorough else 1)) // nshards)):
+            nl = rng.choice([1, 1, 2, 3, 4, B, B + 1, 2 * B + 1] if B <= 7 else [1, 2, 6, 16, 65] if B == 64 else [1, 2, 6, 300])
+            needle = bytes([rng.choice(ALPHA)]) * nl if rng.random() < 0.4 else bytes(rng.choice(ALPHA) for _ in range(nl))
+            s0 = rng.choice([0, 0, 0, 1, 2, B - 1, B, B + 1, nl, rng.randrange(0, 2 * B + 2)])
+            nb = rng.randrange(1, maxblocks + 1)
+            total = s0 + rng.randrange(max(0, (nb - 1) * B), nb * B + 2)
+            if rng.random() < 0.5:
+                buf = bytearray(rng.choice(list(needle) + ALPHA) for _ in range(total))
+            else:
+                buf = bytearray(bytes([needle[0]]) * total)
+            planted = []
+            for _ in range(rng.randrange(1, 6)):
+                p = s0 + rng.randrange(0, nb + 1) * B - rng.randrange(0, nl + 2)
+                if p < s0:
+                    p = s0 + rng.randrange(0, 3)
+                if len(buf) < p + nl:
+                    buf += bytes(rng.choice(ALPHA) for _ in range(p + nl - len(buf)))
+                buf[p:p + nl] = needle
+                planted.append(p)
+            hay = bytes(buf)
+            cands = set()
+            for j in range(nb + 2):
+                cands |= {s0 + j * B - 1, s0 + j * B, s0 + j * B + 1}
+            for o in planted:
+                j = (o + nl - 1 - s0) // B
+                idx = o - (s0 + max(j * B - (nl - 1), 0))
+                cands |= {idx - 1, idx, idx + 1, o - 1, o, o + 1, o + nl - 1, o + nl}
+            cands |= {B + nl - 3, B + nl - 2, B + nl - 1}
+            maxoff = rng.choice(sorted(c for c in cands if c > 0))
+            if rng.random() < 0.25:
+                start, initpos = None, s0
+            else:
+                start, initpos = s0, rng.choice([0, 0, 3])
+            yield needle_line("f" if rng.random() < 0.25 else "b", B, hay, needle, start, maxoff, initpos)
 
     # ---- (6) ArtifactKit: exhaustive tiny files over the bytes that make headers at offsets 0/1
     amax = 8 if thorough else 6
